@@ -9,6 +9,8 @@ HARNESS = {
     'map': dict(src=['h_map.cpp'], hdr=5, rec=3),
     'hash': dict(src=['h_hash.cpp'], hdr=7, rec=4),
     'mem': dict(src=['h_mem.cpp'], hdr=4, rec=3),
+    'c06t': dict(src=['h_c06t.cpp'], hdr=0, rec=0, lib_only=['memory', 'common']),
+    'stray': dict(src=['h_stray.cpp'], hdr=6, rec=1),
     'dlist': dict(src=['h_dlist.cpp'], hdr=5, rec=3),
     'vector': dict(src=['h_vector.cpp'], hdr=6, rec=5),
     'string': dict(src=['h_string.cpp', 'h_string_adapter.c'], deps=['h_string_adapter.h'], hdr=4, rec=6),
@@ -447,24 +449,139 @@ def plan(prop, tier, seed, budget):
                  'translation units or at least two headers. Distinct = distinct configurations.',
             assumptions=['gcc and the project Makefile (make b) as the build under test', 'only what the project itself makes an error fails a program'],
         )
+    elif prop == 'C06':
+        def g5a(cat, cap, parts):
+            def mk(ctx, Job):
+                exe = ctx['exes'][('c06', 'asan')]
+                return [Job('g5a-%s-%d' % (cat, k), [exe, '--prop', 'C06', 'g5a', cat, str(cap), ctx['outdir'], '%s%d' % (cat, k), str(k), str(parts)],
+                            ctx['outdir'], cur=os.path.join(ctx['outdir'], 'cur-g5a-%s%d.case' % (cat, k)), harness='c06', exe=exe, prop='C06',
+                            env=dict(ASAN_OPTIONS=ctx['asan_fibres'])) for k in range(parts)]
+            return mk
+        def g6(iters, workers):
+            def mk(ctx, Job):
+                exe = ctx['exes'][('c06t', 'tsan')]
+                n = max(100, int(iters * ctx['budget']))
+                return [Job('g6-tsan-%d' % w, [exe, 'run', str(ctx['seed']), str(w), str(n), ctx['outdir']], ctx['outdir'], harness='c06t',
+                            exe=exe, prop='C06') for w in range(workers)]
+            return mk
+        def g2c06(n):
+            inner = g2_jobs('c06', n)
+            def mk(ctx, Job):
+                js = inner(ctx, Job)
+                for j in js:
+                    j.env = dict(ASAN_OPTIONS=ctx['asan_fibres'])
+                return js
+            return mk
+        P = dict(
+            level='exploration',
+            builds=[('c06', 'asan'), ('c06t', 'tsan')],
+            jobs=([g5a('two-small', 2000000, 4), g5a('three', 3000, 12), g2c06(100000), g6(20000, 4)] if q else
+                  [g5a('two', 2000000, 16), g5a('three', 200000, 16), g5a('four', 60000, 16), g2c06(1500000), g6(400000, 8)]),
+            rule='case = (scenario, schedule): one allocation, 2-4 threads each owning private shared/weak pointer objects (0-2 initial owners, '
+                 '0-2 initial weak references) and running a script of 1-4 operations from {share, reset, weak_from, lock (then touch the '
+                 'memory, yield, touch again, reset), weak_reset} followed by resetting everything it holds. src/memory.c is compiled against '
+                 'shadow <stdatomic.h>/<sched.h>: every atomic step, every library malloc/free, the clear callback entry and every memory touch '
+                 'first returns control to a deterministic scheduler that follows the schedule bytes. G5a = EVERY schedule of every scenario of a '
+                 'catalogue by stateless DFS with visited-state pruning (two: 4356 two-thread scenarios, exhaustive; three/four: 1080/162 '
+                 'scenarios up to a per-scenario cap); G5b (g2) = random scenarios with PCT-like random schedules; G6 = the same scenarios on '
+                 'real pthreads under ThreadSanitizer. Oracle per schedule: clear once, managed block freed once, bookkeeping freed once, '
+                 'nothing live; every atomic step inside the live bookkeeping block; a lock that yields an owner yields live memory until that '
+                 'owner\'s reset; lock must succeed when some owner was held throughout it and must fail when destruction had begun before it; '
+                 'no deadlock (all unfinished threads parked on the flag) and termination within a step bound; TSan: no data race. '
+                 'Non-trivial: a schedule with a preemption inside a lock or a reset (G6: a scenario with a lock in one thread and a reset of '
+                 'an owner in another). Distinct = distinct (scenario, schedule decisions).',
+            assumptions=['G5 interleaves only at atomics, allocator calls, callbacks and script touches (plain loads/stores are not yield points); '
+                         'all atomics are seq_cst in the source', 'visited-state pruning identifies a thread state by the operation it is in, what '
+                         'its objects hold and the values its atomic steps of that operation returned',
+                         'G6 is nondeterministic: it can miss, not invent, a violation'],
+        )
+    elif prop == 'C17':
+        def c17a(mode, parts):
+            def mk(ctx, Job):
+                exe = ctx['exes'][('hash', 'asan')]
+                return [Job('c17a-%s-%d' % (mode, k), [exe, '--prop', 'C17', 'c17a', mode, ctx['outdir'], '%s%d' % (mode, k), str(k), str(parts), str(ctx['seed'])],
+                            ctx['outdir'], cur=os.path.join(ctx['outdir'], 'cur-c17a-%s%d.case' % (mode, k)), harness='hash', exe=exe, prop='C17')
+                        for k in range(parts)]
+            return mk
+        P = dict(
+            level='exploration',
+            builds=[('hash', 'asan')] + ([] if q else [('hash', 'rel')]),
+            jobs=[c17a('small', 8), c17a('grid', 16), c17a('boundary', 4), g2_jobs('hash', 150000 if q else 1500000)] +
+                 ([] if q else [g2_jobs('hash', 150000, variant='rel')]),
+            rule='(a) evaluations of cstl_hash_mul(k,m) < m and cstl_hash_div(k,m) == k % m: exhaustive k in [0,2^20) x m in 1..64 and k up to '
+                 '2^25 x 11 sizes; EVERY value the scale factor (float)m takes from 2^24 to 2^64 on the float grid, each with the smallest m that '
+                 'rounds to it (and m+1), against the keys with the largest fractional part of phi*k and boundary keys; every m below 2^24; '
+                 'boundary keys x boundary sizes (2^e-2..2^e+2, SIZE_MAX, Fibonacci numbers) and seeded random 64-bit pairs. Non-trivial: m >= 2. '
+                 '(b) hash-table histories (C03 language) whose hash function returns m, m+1 or SIZE_MAX at a generated call ordinal, so the bad '
+                 'value arrives during insert, find, erase, rehash, resize, shrink_to_fit, foreach, under current and pending geometry; oracle: '
+                 'the library call during which the bad value was returned ends in SIGABRT (not a normal return, not SIGSEGV, not an ASan '
+                 'report), and no call aborts when every value is in range. Non-trivial: the bad value was delivered. Distinct (b) = case bytes.',
+            assumptions=COMMON_ASSUME + ['float arithmetic of the build under test (clang, x86-64 SSE) is what the grid enumeration evaluates'],
+        )
+    elif prop == 'C20':
+        P = dict(
+            level='exploration',
+            builds=[('stray', 'asan')] + ([] if q else [('stray', 'rel')]),
+            jobs=[g1_jobs('stray', ['table'], 100000), g2_jobs('stray', 1500000 if q else 10000000)] +
+                 ([] if q else [g1_jobs('stray', ['table'], 100000, variant='rel')]),
+            rule='case = (object kind in {guarded, unique, shared, weak, array}, state in {empty, owning, co-owned, with weak reference, expired, '
+                 'slice, external buffer}, entry point (every public function that reads, transfers or releases the pointer, header-inline ones '
+                 'included), argument position, copy method in {struct assignment, memcpy to a heap block, memmove within an array of objects}, '
+                 'state of the other argument) preceded by a short well-formed prefix; oracle = the call on the stray copy ends in SIGABRT; '
+                 'afterwards the ORIGINAL answers get/unique/data/size/at exactly as before, its memory was neither cleared nor freed, and '
+                 'resetting the originals leaves nothing live beyond what the abandoned other argument may hold; the prefix (proper use of '
+                 'copy/share/swap) never aborts. G1 = the whole table (810 entries), exhaustive. Non-trivial: stray copy of a non-empty object '
+                 '(for two-object entry points: in the second argument position). Distinct = distinct case bytes.',
+            assumptions=COMMON_ASSUME + ['functions that only (re)initialise (*_init, guarded_ptr_set, the dst of guarded_ptr_copy) and cstl_array_size are outside the statement'],
+        )
     else:
         raise SystemExit('no plan for property %s' % prop)
     return P
 
 # ---------------------------------------------------------------- manifest data
 ENGINES = [
-    dict(name='vcheck', path='vcheck', serves_properties=['C13'],
-         kind_free_text='python driver: builds harnesses from /repo working tree, runs G1/G2/G3 engines in parallel, '
-                        'shrinks failures out of process (ddmin, same clause), writes evidence'),
+    dict(name='vcheck', path='vcheck', serves_properties=['C%02d' % i for i in range(1, 21)],
+         kind_free_text='python driver: rebuilds library + harness from /repo working tree (ASan, asserts on; thorough adds -O2 -DNDEBUG and '
+                        'libFuzzer), runs the engines in parallel, replays regression seeds, shrinks failures out of process (ddmin, same '
+                        'clause), prints VIOLATION / KNOWN-FINDING, writes evidence'),
+    dict(name='harness-engines', path='harness/common/verif.hpp', serves_properties=['C%02d' % i for i in range(1, 21) if i != 18],
+         kind_free_text='shared C++ framework: total byte decoder per container, G1 small-scope closure / all sequences, G2 seeded swarm '
+                        'generator, G3 libFuzzer entry, G7 fault-set enumeration, replay; link-time malloc/free interposition, SIGABRT trap, '
+                        'own __assert_fail, clause attribution'),
+    dict(name='c06-scheduler', path='harness/h_c06.cpp', serves_properties=['C06'],
+         kind_free_text='fibres + shadow <stdatomic.h>: deterministic scheduler, exhaustive DFS over schedules with visited-state pruning, '
+                        'random/PCT schedules; harness/h_c06t.cpp = real threads under ThreadSanitizer'),
+    dict(name='c18-clients', path='c18_clients.py', serves_properties=['C18'],
+         kind_free_text='generates client programs (header subsets x order x #TUs x .a/.so x usage), builds them against the Makefile-built library'),
 ]
 NOT_CLAIMED = {}
-_T = 'model-based stateful PBT: small-scope closure + seeded swarm generation + libFuzzer, reference-model oracle'
+_T = 'model-based stateful PBT: small-scope closure / all-sequences enumeration + seeded swarm generation + libFuzzer (thorough), reference-model oracle, out-of-process shrinking'
+def _mi(level, ref, text, note, technique=_T, engine='vcheck'):
+    return dict(engine=engine, level=level, design_ref=ref, technique=technique, text=text, note=note)
+_N = 'ASan build of the working tree with asserts (thorough also -O2 -DNDEBUG); generator stays in the documented domain (DESIGN.md section 4); exploration, not proof'
 MANIFEST_INFO = {
-    'C13': dict(engine='vcheck', level='exploration', design_ref='5/C13', technique=_T,
-                text='Generated histories over 1-3 singly-linked lists are run against the real code and a reference '
-                     'sequence, with size/front/back/traversal audited after every operation; all sequences to a small '
-                     'depth and closure over reachable list states are enumerated, larger histories sampled. No '
-                     'counterexample in the counted space; not a proof.',
-                note='ASan build of the working tree; reference model = std::vector of element ids; generator stays in the '
-                     'documented domain (no self-concat/self-swap, erase_after only with a successor)'),
+    'C01': _mi('exploration', '5/C01', 'Histories on bintree+rbtree against a reference multiset with pointer identity; closure over all shapes <= 8-11 nodes per comparison function, long random histories with heavy duplication. No counterexample in the counted space.', _N),
+    'C02': _mi('exploration', '5/C02', 'Red-black invariants (root black, no red-red, equal black height, parent links, height bound) walked over the public node fields after every insert/erase; closure over every reachable shape+colouring in small scopes, random histories beyond.', _N + '; reads the public colour/link fields'),
+    'C03': _mi('exploration', '5/C03', 'Hash histories with resize-during-resize, duplicate keys, visitors, swap against a membership model keyed by element address; closure over reachable table states in small scopes.', _N),
+    'C04': _mi('exploration', '5/C04', 'foreach / foreach_const / clear at every stage of grow and shrink rehashes checked with per-address visit counters; closure over table states x entry points.', _N),
+    'C05': _mi('exploration', '5/C05', 'Per-operation event oracle (clear callback, frees, mallocs observed through link-time interposition) against an ownership model over pools of shared/weak/unique pointers; all sequences to depth 4-6, random histories beyond.', _N),
+    'C06': _mi('exploration', '5/C06', 'The harness owns the schedule: memory.c compiled against shadow atomics, every schedule of every two-thread scenario of the catalogue enumerated (visited-state pruning), 3/4-thread catalogues up to a cap, random schedules, plus real threads under TSan.', 'interleaves at atomics, allocator calls, callbacks, script touches; seq_cst atomics; liveness = termination of bounded scenarios; TSan runs are nondeterministic',
+               technique='schedule enumeration (stateless DFS with visited-state pruning) + randomised schedules over generated scenarios, C05 oracle per schedule; TSan real-thread runs'),
+    'C07': _mi('exploration', '5/C07', 'Push/pop histories against a reference multiset plus a completeness/heap-order walk over the public links; closure over all heaps <= 9-15 elements, long random interleavings.', _N),
+    'C08': _mi('exploration', '5/C08', 'Map histories with pointer-identity of stored key/value cells and allocation accounting against a reference map; all sequences to depth 4-5, closure over the underlying tree, random histories.', _N),
+    'C09': _mi('exploration', '5/C09', 'Vector histories with boundary/overflowing sizes; block size known from the interposer compared with (cap+1)*elem in 128-bit arithmetic; ctor/dtor counters; abort predicate. Every op x full symbolic table x element sizes enumerated.', _N + '; requests above 1 MiB are refused by the interposer'),
+    'C10': _mi('exploration', '5/C10', 'Narrow and wide string edit histories against std::basic_string with symbolic positions/counts; NUL termination; abort predicate; libc differential for find/compare. Every single op and ordered pair from every base string <= 3 chars enumerated.', _N),
+    'C11': _mi('exploration', '5/C11', 'All arrays up to length 7/9 over a 4-value alphabet x entry point x element size x selector, every QUICK_R pivot script, adversarial large inputs; oracle sorted + byte-multiset equal + callback bounds + search/find/reverse relations.', _N),
+    'C12': _mi('exploration', '5/C12', 'Histories over 1-3 dlists against reference sequences audited in both directions after every op; closure over list states and all short sequences.', _N),
+    'C13': _mi('exploration', '5/C13', 'Histories over 1-3 slists against reference sequences with size/front/back/traversal audited after every op; push_back right after every structural op by construction.', _N),
+    'C14': _mi('exploration', '5/C14', 'Histories over array objects/buffers with boundary bounds against a view/buffer model; addresses checked against live blocks; allocator events per op for lifetime.', _N),
+    'C15': _mi('exploration', '5/C15', 'clear with a freeing+poisoning callback applied in every reachable small-scope state of six containers, then the cleared container is compared with a freshly initialised twin under further operations.', _N),
+    'C16': _mi('fault_enumeration', '5/C16', 'Generated scripts x fault sets (every single allocation, every suffix, pairs, triples) for map, vector, string, hash, smart pointers, array; documented failure outcome, unchanged contents, continued use, leak audit.', _N + '; faults injected at the library\'s malloc/calloc/realloc only',
+               technique='fault-set enumeration over generated operation scripts with a reference-model oracle'),
+    'C17': _mi('exploration', '5/C17', 'Built-in hashes evaluated exhaustively on small domains and on the whole float grid of the scale factor with worst-case keys; histories with a hash function that misbehaves at a generated call must abort in that call.', _N,
+               technique='exhaustive + boundary + random evaluation of the pure hash functions; stateful PBT with an injected out-of-range hash value'),
+    'C18': _mi('exploration', '5/C18', 'Generated client programs (every header alone, ordered pairs, all together; 1 and 2 TUs; .a and .so; include-only and address-of-every-function) built with the project flags against the Makefile-built library.', 'gcc + project Makefile; only compiler/linker/program exit status and exported symbols decide',
+               technique='generated client programs (configuration enumeration + seeded sampling) with compile/link/run oracle', engine='vcheck'),
+    'C19': _mi('exploration', '5/C19', 'Unique-key hash histories with logging hash functions: load after every resize, per-operation call log must be lookups + relocations from <= 3 buckets, single lookup once finished and after at most B keyed ops.', _N),
+    'C20': _mi('exploration', '5/C20', 'Exhaustive table (kind x state x entry point x argument position x copy method) of calls on bitwise copies must abort; original keeps answering; proper moves never abort.', _N),
 }
